@@ -431,7 +431,8 @@ class Feedback:
         if self.priority is not None:
             metadata += ", priority=" + self.priority
         if self.parent is not None:
-            metadata += ", parent=" + str(self.parent.label)
+            # A parent is a feedback object, or just the number or name of a group
+            metadata += ", parent=" + str(getattr(self.parent, 'label', self.parent))
         if self.fields is not None:
             metadata += ", " + ", ".join(f"{field}={value!r}" for field, value in self.fields.items())
         return "Feedback({}{})".format(self.label, metadata)
